@@ -666,9 +666,27 @@ func execHist(ops []string, mon *Mon) []string {
 				return strings.Join(xs, ",") + ";"
 			case "pattern":
 				got := sh.GetEntriesByPattern(UnHx(f[1]))
-				xs := make([]string, len(got))
-				for i, e := range got {
-					xs[i] = Hx(e.Query) + ":" + Itoa(e.ResultsCount)
+				// newest first; entries with EQUAL timestamps (possible only for hand-made files) come out of the
+				// unstable sort in an unspecified order: print each such run sorted
+				var xs []string
+				for i := 0; i < len(got); {
+					j := i + 1
+					for j < len(got) && got[j].Timestamp.Equal(got[i].Timestamp) {
+						j++
+					}
+					var run []string
+					for _, e := range got[i:j] {
+						run = append(run, Hx(e.Query)+":"+Itoa(e.ResultsCount))
+					}
+					sort.Strings(run)
+					xs = append(xs, run...)
+					i = j
+				}
+				for i := 1; i < len(got); i++ {
+					if got[i].Timestamp.After(got[i-1].Timestamp) {
+						hit("pattern-not-newest-first", map[string]interface{}{"op": o, "index": i})
+						break
+					}
 				}
 				return strings.Join(xs, ",") + ";"
 			case "chrono":
